@@ -456,7 +456,7 @@ PROPS["C10"] = dict(
     assumptions=TRUST_BASE,
     stages=dict(
         quick=[native("dbg", scale=9), custom("c10_processes", builds=["cli", "dbg"], n=48, reps=4)],
-        thorough=[native("dbg", scale=4), native("rel", scale=4), custom("c10_processes", builds=["cli", "dbg"], n=400, reps=8)],
+        thorough=[native("dbg", scale=1.5), native("rel", scale=1.5), custom("c10_processes", builds=["cli", "dbg"], n=400, reps=8)],
     ),
 )
 
